@@ -612,8 +612,21 @@ POOL0 = [()]                                  # over=[]: zero partition keys, on
 POOL1_DISTINCT = [(0,), (None,), (1,), (2,)]
 BOOL_VALS = [None, True, False]
 NONE_VALS = [None]
+# keys that are EQUAL (== and hash: one partition) but distinguishable values: signed zeros, bool / int / float
+NEGZERO = -0.0
+POOL1_EQ_ZERO = [(0.0,), (NEGZERO,), (None,)]
+POOL1_EQ_LADDER = [(True,), (1,), (1.0,), (0,)]
+POOL1_EQ_INTFLOAT = [(2,), (2.0,), (None,), (3,)]
+POOL2_EQ = [('a', 2), ('a', 2.0), (None, 2.0), ('b', 2)]
+POOL2_EQ_ZERO = [(0.0, True), (NEGZERO, 1), (0.0, 1.0)]
+EQKEY_VALS = [None, 1]
 EXTRA_AGG_BLOCKS = {
     # label: options (value pool, result-dtype check, table shape)
+    'eqkeys-signed-zero': {'val_pool': EQKEY_VALS},
+    'eqkeys-bool-int-float': {'val_pool': EQKEY_VALS},
+    'eqkeys-int-float': {'val_pool': EQKEY_VALS},
+    '2key-eqkeys': {'val_pool': [1]},
+    '2key-eqkeys-signed-zero': {'val_pool': EQKEY_VALS},
     'bool-values': {'val_pool': BOOL_VALS, 'dtypes': True},
     'all-None-values': {'val_pool': NONE_VALS, 'dtypes': True},
     '2key-bool-values': {'val_pool': BOOL_VALS, 'dtypes': True},
@@ -678,6 +691,12 @@ def extra_agg_blocks(tier, heavy=False):
         ('all-None-values', 1, POOL1, 0, 4 if q else 6, 'full+rot'),
         ('2key-bool-values', 2, POOL2_3, 0, 2 if q else 3, 'full'),
         ('single-row-groups', 1, POOL1_DISTINCT, 1, 3 if q else 4, 'full+rot'),
+        # equal-but-distinguishable key cells (one partition; the cells themselves must come back unchanged)
+        ('eqkeys-signed-zero', 1, POOL1_EQ_ZERO, 1, 3 if q else 4, 'full'),
+        ('eqkeys-bool-int-float', 1, POOL1_EQ_LADDER, 1, 3 if q else 4, 'full'),
+        ('eqkeys-int-float', 1, POOL1_EQ_INTFLOAT, 1, 3 if q else 4, 'full'),
+        ('2key-eqkeys', 2, POOL2_EQ, 1, 3 if q else 4, 'full'),
+        ('2key-eqkeys-signed-zero', 2, POOL2_EQ_ZERO, 1, 2 if q else 3, 'full'),
     ]
 
 
@@ -722,6 +741,8 @@ def agg_signature(case):
         return ('precision', case['family'], case['layout'], len(case['vals']), sum(v is None for v in case['vals']))
     if case.get('op') == 'exactmean':
         return ('exactmean', case['family'], case['layout'], tuple(case['idx']))
+    if case.get('op') == 'mutapply':
+        return ('mutapply', case['target'], case['nk'], case['mode'], repr(case['rows']), tuple(case['order'][:2]), len(case['order']), bool(case['aggs']))
     nk = case['nk']
     keys = [tuple(r[:nk]) for r in case['rows']]
     vals = [r[nk] for r in case['rows']]
@@ -751,7 +772,38 @@ def agg_site(op, case):
         return op + '-zero-keys'
     if 'hashcollide' in case.get('block', ''):
         return op + '-hash-colliding-keys'
+    if 'eqkeys' in case.get('block', ''):
+        return op + '-equal-distinct-keys'
     return op
+
+
+def cell_id(x):
+    """Image of a cell that tells apart every value a reader can tell apart: 1 / True / 1.0, 0.0 / -0.0."""
+    return (type(x).__name__, repr(x))
+
+
+def input_key_columns(setup):
+    """The key column vectors an AggSetup passes (external vectors, or the table's own columns)."""
+    if setup.case['mode'] == 'ext':
+        ov = setup.over if isinstance(setup.over, list) else [setup.over]
+        return list(ov)
+    return list(setup.T.cols()[:setup.nk])
+
+
+def key_columns_changed(res, key_sigs, keys):
+    """window: the partition key columns are reproduced UNCHANGED - every cell the very same value (type and
+    repr: True is not 1, -0.0 is not 0.0) and the column dtype that of the input key column.
+    key_sigs: schema_sig of each input key column taken before the call.  None, or (class, expected, observed)."""
+    nk = len(key_sigs)
+    for j in range(nk):
+        got = list(res.cols()[j]._underlying)
+        want = [k[j] for k in keys]
+        if [cell_id(x) for x in got] != [cell_id(x) for x in want]:
+            return 'cell-changed', want, got
+    for j in range(nk):
+        if schema_sig(res.cols()[j]) != key_sigs[j]:
+            return 'dtype-changed', key_sigs[j], schema_sig(res.cols()[j])
+    return None
 
 
 def schema_sig(v):
@@ -1108,6 +1160,228 @@ def check_seq_apply(pid, op, site, res, expected, fails, descr):
             fails.append(Fail(f'{pid}:{site}:apply-sequence-argument:{cap}:value',
                               f'{descr}: apply function {name!r} (uses its argument as a list: {cap}) gives {col!r}; on the plain list of each '
                               f"group's values (None included, row order) it gives {want!r}", want, col, f'{pid}:{op}:apply'))
+
+
+# ---- custom apply functions that MODIFY the list they are given ---------------------------------------
+# "a custom apply function receives each group's values (None included) in row order exactly once": what one
+# function does to its argument (sort it, pop from it, strip the None entries, clear it) is its own business -
+# every other aggregation of the same call (later or earlier apply entries, the built-ins) still gets the
+# group's values.  Oracle: each function run on a FRESH plain list of the group's values.
+def _none_last(x):
+    return (x is None, 0 if x is None else x)
+
+
+def _mut_sort_median(vals):
+    try:
+        vals.sort(key=_none_last)
+        s = vals
+    except AttributeError:
+        s = sorted(vals, key=_none_last)
+    return repr(s[len(s) // 2]) if len(s) else 'empty'
+
+
+def _mut_pop_last(vals):
+    try:
+        return repr(vals.pop())
+    except AttributeError:
+        return repr(vals[-1])
+    except IndexError:
+        return 'empty'
+
+
+def _mut_pop_first(vals):
+    try:
+        return repr(vals.pop(0))
+    except AttributeError:
+        return repr(vals[0])
+    except IndexError:
+        return 'empty'
+
+
+def _mut_drop_none(vals):
+    try:
+        while None in vals:
+            vals.remove(None)
+        return len(vals)
+    except AttributeError:
+        return sum(1 for v in vals if v is not None)
+
+
+def _mut_clear(vals):
+    n = len(vals)
+    try:
+        vals.clear()
+    except AttributeError:
+        pass
+    return n
+
+
+def _mut_reverse(vals):
+    try:
+        vals.reverse()
+        return repr(list(vals))
+    except AttributeError:
+        return repr(list(reversed(vals)))
+
+
+def _mut_append(vals):
+    try:
+        vals.append(99)
+        return len(vals)
+    except AttributeError:
+        return len(vals) + 1
+
+
+def _mut_overwrite(vals):
+    out = repr(list(vals))
+    try:
+        for i in range(len(vals)):
+            vals[i] = 0
+    except TypeError:
+        pass
+    return out
+
+
+def _obs_spell(vals):
+    return repr(list(vals))
+
+
+def _obs_first(vals):
+    return repr(vals[0]) if len(vals) else 'empty'
+
+
+def _obs_last(vals):
+    return repr(vals[-1]) if len(vals) else 'empty'
+
+
+def _obs_count_none(vals):
+    return f'{len(vals)}/{sum(1 for v in vals if v is None)}'
+
+
+MUT_APPLY = {
+    'sort_median': _mut_sort_median, 'spell': _obs_spell, 'pop_last': _mut_pop_last, 'first': _obs_first,
+    'drop_none': _mut_drop_none, 'count_none': _obs_count_none, 'clear': _mut_clear, 'last': _obs_last,
+    'reverse': _mut_reverse, 'pop_first': _mut_pop_first, 'append': _mut_append, 'overwrite': _mut_overwrite,
+}
+MUT_APPLY_NAMES = list(MUT_APPLY)
+MUT_POOL1 = [(0,), (None,)]
+
+
+def mut_apply_orders(idx, tier):
+    """Orders of the apply dict: rotations of the function list and their reverses (an order together with
+    its reverse puts every function both before and after every other one)."""
+    n = len(MUT_APPLY_NAMES)
+    rots = range(n) if tier != 'quick' else [idx % n, (idx + 5) % n]
+    out = []
+    for r in rots:
+        o = MUT_APPLY_NAMES[r:] + MUT_APPLY_NAMES[:r]
+        out.append(o)
+        out.append(o[::-1])
+    return out
+
+
+def mut_apply_cases(tier, op):
+    q = tier == 'quick'
+    blocks = [(1, MUT_POOL1, 2, 3 if q else 4), (2, POOL2_3, 1, 2), (0, POOL0, 1, 3)]
+    idx = 0
+    for nk, pool, lo, hi in blocks:
+        for rows in agg_tables(nk, pool, hi, lo):
+            idx += 1
+            for j, order in enumerate(mut_apply_orders(idx, tier)):
+                yield {'op': 'mutapply', 'target': op, 'block': 'mut-apply', 'nk': nk, 'rows': rows, 'mode': MODES[(idx + j) % 3],
+                       'aggs': list(AGGS) if (idx + j) % 2 else [], 'apply': False, 'order': order}
+    if not q:       # every ordered pair of functions alone in the dict (two-row tables)
+        for rows in agg_tables(1, MUT_POOL1, 2, 2):
+            for a in MUT_APPLY_NAMES:
+                for b in MUT_APPLY_NAMES:
+                    if a != b:
+                        idx += 1
+                        yield {'op': 'mutapply', 'target': op, 'block': 'mut-apply', 'nk': 1, 'rows': rows, 'mode': MODES[idx % 3],
+                               'aggs': [AGGS[idx % 6]], 'apply': False, 'order': [a, b]}
+
+
+class MutApplySetup(AggSetup):
+    """AggSetup whose apply dict holds case['order'] (entries alternate between naming the column and passing
+    the table's own column vector), next to the built-ins of case['aggs'] on the same column."""
+
+    def __init__(self, case, only=None):
+        super().__init__(case)
+        entries = [(i, name) for i, name in enumerate(case['order']) if only is None or i == only]
+        colvec = self.T.cols()[-1]
+        self.kwargs = {f'{a}_over': self.vspec for a in (case['aggs'] if only is None else [])}
+        self.kwargs['apply'] = {f'm{i}_{name}': (('v' if i % 2 == 0 else colvec), MUT_APPLY[name]) for i, name in entries}
+
+
+def mut_apply_expected(op, case, keys, vals):
+    """{column name: expected values} (per group for aggregate, per row for window)."""
+    order, grows = group_by_hand(keys)
+    group_of = [next(g for g, k in enumerate(order) if k == key) for key in keys]
+    out = {}
+    for a in case['aggs']:
+        out[f'v_{a}'] = [textbook(a, [vals[i] for i in rows]) for rows in grows]
+    for i, name in enumerate(case['order']):
+        out[f'm{i}_{name}'] = [MUT_APPLY[name]([vals[i2] for i2 in rows]) for rows in grows]      # a fresh list each time
+    if op == 'window':
+        out = {name: [col[g] for g in group_of] for name, col in out.items()}
+    return out
+
+
+def eval_mutapply(pid, case):
+    op = case['target']
+    descr = (f"{op}(over={case['mode']} x{case['nk']}, {'+'.join(case['aggs']) or 'no built-ins'}, apply=<{', '.join(case['order'])}> "
+             f"all on column v) on rows(keys..., v)={case['rows']}")
+    try:
+        s = MutApplySetup(case)
+    except Exception as e:
+        return [Fail(f'{pid}:setup:raises:{type(e).__name__}', f'{descr}: building the table raised {e!r}', None, repr(e))]
+    before = s.snapshot()
+    site = agg_site(op, case)
+    fails = []
+    want = mut_apply_expected(op, case, s.keys, s.vals)
+    try:
+        res = getattr(s.T, op)(s.over, **s.kwargs)
+    except Exception as e:
+        return [Fail(f'{pid}:{site}:apply-mutating-argument:raises:{type(e).__name__}', f'{descr}: raised {e!r}', want, repr(e), f'{pid}:{op}:apply')]
+    try:
+        m = truthful(res)
+        if m:
+            fails.append(Fail(f'C03:{op}:truthful', f'{descr}: {m}', None, m))
+        seen = set()
+        for name, exp in want.items():
+            col = out_column(res, name)
+            builtin = name.startswith('v_')
+            victim = name[2:] if builtin else 'apply'
+            if col is None:
+                fails.append(Fail(f'{pid}:{site}:apply-mutating-argument:{victim}:missing-column', f'{descr}: no output column {name}', name,
+                                  list(res.column_names())))
+                continue
+            ok = len(col) == len(exp) and all(close(a, b) if builtin else (type(a) is type(b) and a == b) for a, b in zip(col, exp))
+            if ok:
+                continue
+            # the same function alone, on a fresh table: right there => the value depends on the OTHER entries of the call
+            cls = 'value'
+            try:
+                if builtin:
+                    s1 = AggSetup(dict(case, aggs=[victim], apply=False))
+                else:
+                    s1 = MutApplySetup(case, only=int(name[1:name.index('_')]))
+                alone = out_column(getattr(s1.T, op)(s1.over, **s1.kwargs), name)
+                if alone is not None and len(alone) == len(exp) and all(close(a, b) if builtin else a == b for a, b in zip(alone, exp)):
+                    cls = 'changed-by-other-apply-entries'
+            except Exception:
+                pass
+            key = f'{pid}:{site}:apply-mutating-argument:{victim}:{cls}'
+            if key in seen:
+                continue
+            seen.add(key)
+            what = ('built-in ' + victim) if builtin else f'apply function {name[name.index("_") + 1:]!r} (entry {name})'
+            fails.append(Fail(key, f"{descr}: {what} gives {col!r}; on a fresh plain list of each group's values (None included, row order) "
+                                   f'it gives {exp!r}', exp, col, f'{pid}:{op}:apply'))
+    except Exception as e:
+        fails.append(Fail(f'{pid}:{site}:malformed-result', f'{descr}: result could not be read: {e!r}', None, repr(e)))
+    if s.snapshot() != before:
+        fails.append(Fail(f'{pid}:{site}:input-modified', f'{descr}: the table or a key vector changed', before, s.snapshot()))
+    return fails
 
 
 # ---- mean on values that do not survive a conversion to double -------------------------------------
